@@ -15,15 +15,9 @@ Variable E : env.
 Variable fuel : nat.
 
 Definition icall_headers {L R B} (hc : hcfg) (get : L -> list slot)
-           (put : list slot -> L -> L) (putmem : list slot -> L -> L) : I L R B nat := fun l c =>
-  let fin lh := putmem (g_headers_v_arr lh)
-                       (put (firstn (g_headers_v_num_headers lh) (g_headers_v_arr lh)) l) in
-  match ifun (g_headers_body E fuel hc) (g_headers_init (get l)) c with
-  | IDone n lh c' => IDone n (fin lh) c'
-  | IPart lh => IPart (fin lh)
-  | IFail e lh => IFail e (fin lh)
-  | IFault f lh => IFault f (fin lh)
-  | IExc _ lh _ => IFault Unreachable (fin lh)
-  end.
+           (put : list slot -> L -> L) (putmem : list slot -> L -> L) : I L R B nat :=
+  isub (g_headers_body E fuel hc) (fun l => g_headers_init (get l))
+       (fun lh l => putmem (g_headers_v_arr lh)
+                           (put (firstn (g_headers_v_num_headers lh) (g_headers_v_arr lh)) l)).
 
 End Glue.
